@@ -129,5 +129,172 @@ __CPROVER_ensures((__CPROVER_return_value == ENOSPC && buf_size_ret != NULL) ==>
 /* The parsers (sa_addr_from_str, sa_addr_port_from_str, str_net_to_ss) are specified in
  * harness/C18/parse.c against specs/netaddr_spec.h (plain harness: spec functions with loops in
  * dfcc ensures clauses made symbolic execution impractical, > 900 s at 12 bytes). */
+
+/* ---- small accessors: family dispatch as the API documents it, frame ----------------------- */
+#define VF_FAM_SIZE(f)	((f) == AF_UNIX ? sizeof(struct sockaddr_un) : (f) == AF_INET ?		\
+			 sizeof(struct sockaddr_in) : (f) == AF_INET6 ? sizeof(struct sockaddr_in6) : VF_SS_SIZE)
+#define VF_ADDR_SIZE(f)	((f) == AF_INET ? 4u : (f) == AF_INET6 ? 16u : 0u)
+#define VF_W_UN(a)	((struct sockaddr_un *)(a))
+#define VF_W_IN(a)	((struct sockaddr_in *)(a))
+#define VF_W_IN6(a)	((struct sockaddr_in6 *)(a))
+size_t vf_src_len;	/* ghost: strlen of an AF_UNIX source path (set by the harness that builds it) */
+
+sa_family_t sa_family(const struct sockaddr_storage *addr)
+__CPROVER_requires(addr == NULL || __CPROVER_is_fresh(addr, VF_SS_SIZE))
+__CPROVER_assigns()
+__CPROVER_ensures(__CPROVER_return_value == ((addr != NULL && VF_KNOWN_FAM(addr)) ? VF_FAM(addr) : 0))
+;
+socklen_t sa_size(const struct sockaddr_storage *addr)
+__CPROVER_requires(addr == NULL || __CPROVER_is_fresh(addr, VF_SS_SIZE))
+__CPROVER_assigns()
+__CPROVER_ensures(__CPROVER_return_value == (addr == NULL ? 0 : VF_FAM_SIZE(VF_FAM(addr))))
+;
+uint16_t sa_port_get(const struct sockaddr_storage *addr)
+__CPROVER_requires(addr == NULL || __CPROVER_is_fresh(addr, VF_SS_SIZE))
+__CPROVER_assigns()
+__CPROVER_ensures(__CPROVER_return_value == (addr == NULL ? 0 : VF_PORT(addr)))
+;
+int sa_port_set(struct sockaddr_storage *addr, const uint16_t port)
+__CPROVER_requires(addr == NULL || __CPROVER_is_fresh(addr, VF_SS_SIZE))
+/* frame: the port field of the family in use, nothing else */
+__CPROVER_assigns(addr != NULL && VF_FAM(addr) == AF_INET: VF_W_IN(addr)->sin_port)
+__CPROVER_assigns(addr != NULL && VF_FAM(addr) == AF_INET6: VF_W_IN6(addr)->sin6_port)
+__CPROVER_ensures(__CPROVER_return_value == (addr == NULL ? EINVAL : VF_KNOWN_FAM(addr) ? 0 : EAFNOSUPPORT))
+__CPROVER_ensures((addr != NULL && VF_IS_INET(addr)) ==> VF_PORT(addr) == port)
+;
+void *sa_addr_get(const struct sockaddr_storage *addr)
+__CPROVER_requires(addr == NULL || __CPROVER_is_fresh(addr, VF_SS_SIZE))
+__CPROVER_assigns()
+__CPROVER_ensures((addr == NULL || !VF_KNOWN_FAM(addr)) ==> __CPROVER_return_value == NULL)
+__CPROVER_ensures((addr != NULL && VF_FAM(addr) == AF_UNIX) ==> __CPROVER_return_value == (void *)VF_UN(addr)->sun_path)
+__CPROVER_ensures((addr != NULL && VF_FAM(addr) == AF_INET) ==> __CPROVER_return_value == (void *)&VF_IN(addr)->sin_addr)
+__CPROVER_ensures((addr != NULL && VF_FAM(addr) == AF_INET6) ==> __CPROVER_return_value == (void *)&VF_IN6(addr)->sin6_addr)
+;
+/* source of an address: 4 / 16 bytes, or (AF_UNIX) a C string of exactly vf_src_len characters.
+ * The harness builds the source as an exact-size heap object (so over-reads are caught) and, for
+ * AF_UNIX, makes vf_src_len its strlen (bytes before it non-NUL): a universally quantified
+ * precondition cannot be written with a ghost index. */
+#define VF_SRC_PRE(fam)									\
+__CPROVER_requires(sin_addr == NULL || __CPROVER_r_ok(sin_addr,				\
+    (fam) == AF_UNIX ? vf_src_len + 1u : VF_ADDR_SIZE(fam)))				\
+__CPROVER_requires((sin_addr != NULL && (fam) == AF_UNIX) ==>				\
+    (vf_src_len <= VF_SRC_MAX && ((const char *)sin_addr)[vf_src_len] == 0))
+#ifndef VF_SRC_MAX
+#define VF_SRC_MAX	120u	/* longer than sun_path: truncation is covered */
+#endif
+/* the stored address equals the source (ghost index); a path is cut to fit and NUL-terminated */
+#define VF_SRC_POST(cond, fam)								\
+__CPROVER_ensures(((cond) && (fam) == AF_INET && vf_k < 4) ==>				\
+    ((const uint8_t *)&VF_IN(addr)->sin_addr)[vf_k] == ((const uint8_t *)sin_addr)[vf_k]) \
+__CPROVER_ensures(((cond) && (fam) == AF_INET6 && vf_k < 16) ==>			\
+    VF_IN6(addr)->sin6_addr.s6_addr[vf_k] == ((const uint8_t *)sin_addr)[vf_k])		\
+__CPROVER_ensures(((cond) && (fam) == AF_UNIX && vf_k < VF_SUN_MAX - 1u && vf_k < vf_src_len) ==>	\
+    VF_UN(addr)->sun_path[vf_k] == ((const char *)sin_addr)[vf_k])			\
+__CPROVER_ensures(((cond) && (fam) == AF_UNIX) ==>					\
+    VF_UN(addr)->sun_path[vf_src_len < VF_SUN_MAX ? vf_src_len : VF_SUN_MAX - 1u] == 0)
+
+int sa_addr_set(struct sockaddr_storage *addr, const void *sin_addr)
+/* the address object is the harness's (its family decides which source the harness builds) */
+__CPROVER_requires(addr == NULL || __CPROVER_w_ok(addr, VF_SS_SIZE))
+VF_SRC_PRE(addr == NULL ? 0 : VF_FAM(addr))
+__CPROVER_assigns(addr != NULL && sin_addr != NULL && VF_FAM(addr) == AF_UNIX: __CPROVER_object_upto(VF_W_UN(addr)->sun_path, VF_SUN_MAX))
+__CPROVER_assigns(addr != NULL && sin_addr != NULL && VF_FAM(addr) == AF_INET: VF_W_IN(addr)->sin_addr)
+__CPROVER_assigns(addr != NULL && sin_addr != NULL && VF_FAM(addr) == AF_INET6: VF_W_IN6(addr)->sin6_addr)
+__CPROVER_ensures(__CPROVER_return_value == ((addr == NULL || sin_addr == NULL) ? EINVAL :
+    VF_KNOWN_FAM(addr) ? 0 : EAFNOSUPPORT))
+VF_SRC_POST(__CPROVER_return_value == 0, VF_FAM(addr))
+;
+
+int sa_init(struct sockaddr_storage *addr, const sa_family_t family, const void *sin_addr, const uint16_t port)
+__CPROVER_requires(addr == NULL || __CPROVER_is_fresh(addr, VF_SS_SIZE))
+VF_SRC_PRE(family)
+/* frame: only the bytes of the family's own sockaddr type; an unknown family writes nothing */
+__CPROVER_assigns(addr != NULL && family == AF_UNIX: __CPROVER_object_upto(addr, sizeof(struct sockaddr_un)))
+__CPROVER_assigns(addr != NULL && family == AF_INET: __CPROVER_object_upto(addr, sizeof(struct sockaddr_in)))
+__CPROVER_assigns(addr != NULL && family == AF_INET6: __CPROVER_object_upto(addr, sizeof(struct sockaddr_in6)))
+__CPROVER_ensures(__CPROVER_return_value == (addr == NULL ? EINVAL :
+    (family == AF_UNIX || family == AF_INET || family == AF_INET6) ? 0 : EAFNOSUPPORT))
+__CPROVER_ensures(__CPROVER_return_value == 0 ==> VF_FAM(addr) == family)
+__CPROVER_ensures((__CPROVER_return_value == 0 && family != AF_UNIX) ==> VF_PORT(addr) == port)
+/* address = source, or all zero without a source; the remaining fields are zero */
+VF_SRC_POST(__CPROVER_return_value == 0 && sin_addr != NULL, family)
+__CPROVER_ensures((__CPROVER_return_value == 0 && sin_addr == NULL && family == AF_INET) ==>
+    VF_IN(addr)->sin_addr.s_addr == 0)
+__CPROVER_ensures((__CPROVER_return_value == 0 && sin_addr == NULL && family == AF_INET6 && vf_k < 16) ==>
+    VF_IN6(addr)->sin6_addr.s6_addr[vf_k] == 0)
+__CPROVER_ensures((__CPROVER_return_value == 0 && sin_addr == NULL && family == AF_UNIX && vf_k < VF_SUN_MAX) ==>
+    VF_UN(addr)->sun_path[vf_k] == 0)
+__CPROVER_ensures((__CPROVER_return_value == 0 && family == AF_INET6) ==>
+    (VF_IN6(addr)->sin6_flowinfo == 0 && VF_IN6(addr)->sin6_scope_id == 0))
+__CPROVER_ensures((__CPROVER_return_value == 0 && family == AF_INET && vf_k < 8) ==>
+    VF_IN(addr)->sin_zero[vf_k] == 0)
+;
+
+/* ---- predicates on the address, stated on the host-order integer / the bytes --------------- */
+#define VF_A4H(a)	VF_NTOHL(VF_IN(a)->sin_addr.s_addr)
+#define VF_A6B(a, i)	(VF_IN6(a)->sin6_addr.s6_addr[i])
+#define VF_A6_HI15_ZERO(a) (VF_A6B(a,0) == 0 && VF_A6B(a,1) == 0 && VF_A6B(a,2) == 0 && VF_A6B(a,3) == 0 && \
+	VF_A6B(a,4) == 0 && VF_A6B(a,5) == 0 && VF_A6B(a,6) == 0 && VF_A6B(a,7) == 0 &&	\
+	VF_A6B(a,8) == 0 && VF_A6B(a,9) == 0 && VF_A6B(a,10) == 0 && VF_A6B(a,11) == 0 &&	\
+	VF_A6B(a,12) == 0 && VF_A6B(a,13) == 0 && VF_A6B(a,14) == 0)
+#define VF_PRED_CONTRACT(fn, UN, IN4, IN6)						\
+int fn(const struct sockaddr_storage *addr)						\
+__CPROVER_requires(addr == NULL || __CPROVER_is_fresh(addr, VF_SS_SIZE))		\
+__CPROVER_assigns()									\
+__CPROVER_ensures((__CPROVER_return_value != 0) == (addr != NULL && (			\
+    (VF_FAM(addr) == AF_UNIX && (UN)) || (VF_FAM(addr) == AF_INET && (IN4)) ||		\
+    (VF_FAM(addr) == AF_INET6 && (IN6)))))						\
+;
+VF_PRED_CONTRACT(sa_addr_is_specified, VF_UN(addr)->sun_path[0] != 0, VF_A4H(addr) != 0,
+    !(VF_A6_HI15_ZERO(addr) && VF_A6B(addr, 15) == 0))
+VF_PRED_CONTRACT(sa_addr_is_loopback, 0, (VF_A4H(addr) >> 24) == 127,		/* 127.0.0.0/8, ::1 */
+    (VF_A6_HI15_ZERO(addr) && VF_A6B(addr, 15) == 1))
+VF_PRED_CONTRACT(sa_addr_is_multicast, 0, (VF_A4H(addr) >> 28) == 14,		/* 224.0.0.0/4, ff00::/8 */
+    VF_A6B(addr, 0) == 0xff)
+VF_PRED_CONTRACT(sa_addr_is_broadcast, 0, VF_A4H(addr) == 0xffffffffu, 0)	/* 255.255.255.255 */
+
+#define VF_B_EQ(a, b, i)	(VF_A6B(a, i) == VF_A6B(b, i))
+#define VF_A6_EQ(a, b)	(VF_B_EQ(a,b,0) && VF_B_EQ(a,b,1) && VF_B_EQ(a,b,2) && VF_B_EQ(a,b,3) &&	\
+	VF_B_EQ(a,b,4) && VF_B_EQ(a,b,5) && VF_B_EQ(a,b,6) && VF_B_EQ(a,b,7) && VF_B_EQ(a,b,8) &&	\
+	VF_B_EQ(a,b,9) && VF_B_EQ(a,b,10) && VF_B_EQ(a,b,11) && VF_B_EQ(a,b,12) && VF_B_EQ(a,b,13) &&	\
+	VF_B_EQ(a,b,14) && VF_B_EQ(a,b,15))
+/* ---- equality ------------------------------------------------------------------------------ */
+/* both objects belong to the harness (they may be the SAME object); AF_UNIX paths are C strings */
+#define VF_EQ_CONTRACT(fn, WITH_PORT)							\
+int fn(const struct sockaddr_storage *addr1, const struct sockaddr_storage *addr2)	\
+__CPROVER_requires(addr1 == NULL || __CPROVER_r_ok(addr1, VF_SS_SIZE))			\
+__CPROVER_requires(addr2 == NULL || __CPROVER_r_ok(addr2, VF_SS_SIZE))			\
+__CPROVER_assigns()									\
+__CPROVER_ensures(__CPROVER_return_value == 0 || __CPROVER_return_value == 1)		\
+__CPROVER_ensures((addr1 == NULL || addr2 == NULL) ==> __CPROVER_return_value == 0)	\
+__CPROVER_ensures((addr1 != NULL && addr1 == addr2) ==> __CPROVER_return_value == 1)	\
+__CPROVER_ensures((addr1 != NULL && addr2 != NULL && addr1 != addr2 &&			\
+    (VF_FAM(addr1) != VF_FAM(addr2) || !VF_KNOWN_FAM(addr1))) ==> __CPROVER_return_value == 0) \
+__CPROVER_ensures((addr1 != NULL && addr2 != NULL && addr1 != addr2 &&			\
+    VF_FAM(addr1) == AF_INET && VF_FAM(addr2) == AF_INET) ==>				\
+    (__CPROVER_return_value == 1) == (VF_IN(addr1)->sin_addr.s_addr == VF_IN(addr2)->sin_addr.s_addr && \
+	(!(WITH_PORT) || VF_IN(addr1)->sin_port == VF_IN(addr2)->sin_port)))		\
+/* IPv6: equal ==> every byte (ghost index) and the port agree; different ==> stated by the harness */ \
+__CPROVER_ensures((addr1 != NULL && addr2 != NULL && addr1 != addr2 &&			\
+    VF_FAM(addr1) == AF_INET6 && VF_FAM(addr2) == AF_INET6 && __CPROVER_return_value == 1 && vf_k < 16) ==> \
+    (VF_A6B(addr1, vf_k) == VF_A6B(addr2, vf_k) &&					\
+	(!(WITH_PORT) || VF_IN6(addr1)->sin6_port == VF_IN6(addr2)->sin6_port)))	\
+__CPROVER_ensures((addr1 != NULL && addr2 != NULL && addr1 != addr2 &&			\
+    VF_FAM(addr1) == AF_INET6 && VF_FAM(addr2) == AF_INET6 && __CPROVER_return_value == 0) ==> \
+    (!VF_A6_EQ(addr1, addr2) ||								\
+	((WITH_PORT) && VF_IN6(addr1)->sin6_port != VF_IN6(addr2)->sin6_port)))	\
+;
+VF_EQ_CONTRACT(sa_addr_port_is_eq, 1)
+VF_EQ_CONTRACT(sa_addr_is_eq, 0)
+
+void sa_copy(const void *src, void *dst)
+__CPROVER_requires(src == NULL || __CPROVER_r_ok(src, VF_SS_SIZE))
+__CPROVER_requires(dst == NULL || __CPROVER_w_ok(dst, VF_SS_SIZE))
+/* frame: the destination, and of it only the bytes of the source's family */
+__CPROVER_assigns(src != NULL && dst != NULL && src != dst:
+    __CPROVER_object_upto(dst, VF_SS_SIZE))
+__CPROVER_ensures((src != NULL && dst != NULL && vf_k < VF_FAM_SIZE(VF_FAM((const struct sockaddr_storage *)src))) ==>
+    ((const uint8_t *)dst)[vf_k % VF_SS_SIZE] == ((const uint8_t *)src)[vf_k % VF_SS_SIZE])
+;
 #endif /* !VF_REPLAY */
 #endif
